@@ -48,6 +48,22 @@ def observe_all(progs, chunk=100, timeout=1800):
     return [o for c in out for o in c]
 
 
+def _observe_sched_chunk(chunk):
+    from .schedobs import observe_sched
+    return [observe_sched(p, seed) for p, seed in chunk]
+
+
+def observe_sched_all(progs, seed0, chunk=50, timeout=3000):
+    """[(observation, info)]: iterations taken under seeded line-level schedules."""
+    jobs = [(p, seed0 + 31 * i) for i, p in enumerate(progs)]
+    chunks = [jobs[i:i + chunk] for i in range(0, len(jobs), chunk)]
+    if not chunks:
+        return []
+    with mp.get_context('fork').Pool(common.NCPU) as pool:
+        out = pool.map_async(_observe_sched_chunk, chunks).get(timeout)
+    return [o for c in out for o in c]
+
+
 def _validate_chunk(args):
     idx, records, unfixed, module, cfg, workers, timeout = args
     d = tlc.prepare(unfixed, tag=f'v{idx}')
